@@ -83,7 +83,7 @@ P = {
                  "C19_find_chain_terminates", "C19_pinned_exhaustion_is_divergence", "C19_empty_store_iff",
                  "C19_accepted_sizes_have_jwk", "C19_size_tables_agree",
                  "C19_truststore_total", "C19_truststore_partial_rejected_fixed", "C19_truststore_panic_iff",
-                 "C19_ruleset_total", "C19_ruleset_total_typed", "C19_F3_only_ill_typed",
+                 "C19_ruleset_total", "C19_duplicate_id_rejected", "C19_ruleset_total_typed", "C19_F3_only_ill_typed",
                  "C19_decode_scopes_panic_iff", "C19_decode_scopes_total_fixed",
                  "C19_fs_total", "C19_fs_run_alive", "C19_fs_run_last_good", "C19_fs_empty_keeps_state_guarded",
                  "C19_fs_total_guarded", "C19_fs_exit_iff_guard",
